@@ -146,9 +146,19 @@ func Harness_P07() {
 		second := strings.ReplaceAll(strings.ReplaceAll(p07Templates[k2], "OUTERL", "OUTERM"), "ENDL", "ENDM")
 		body = p07Block(p07Templates[k1]) + p07Block(second)
 	}
-	src := p07Prelude + "func T(s []*int, x *int, b, c, d bool, l *list, i any) {\n" + body + "}\n"
+	prelude := p07Prelude
+	if ndParam("CONTRACTS", 0) == 1 {
+		// hand-written contracts, also on functions that can be called without arguments; the pipeline then collects
+		// contracts and duplicates the callees' triggers at their calls
+		prelude = strings.Replace(prelude, "func vari(xs ...*int) *int       { return nil }", "// contract(nonnil -> nonnil)\nfunc vari(xs ...*int) *int { return nil }\n\n// contract(nonnil -> nonnil)\nfunc zero() *int { return nil }", 1)
+		prelude = strings.Replace(prelude, "func id[T any](t T) T            { return t }", "func id[T any](t T) T { return t }\n\n// contract(nonnil -> nonnil)\nfunc keep(p *int) *int { return p }", 1)
+		body += "\t_ = zero()\n\t_ = keep(keep(x))\n"
+		pipeContracts = true
+	}
+	src := prelude + "func T(s []*int, x *int, b, c, d bool, l *list, i any) {\n" + body + "}\n"
 	ndObserveStr("source", src)
 	r := pipeAnalyse(src)
+	pipeContracts = false
 	ndObserveInt("diagnostics", len(r.diags))
 	ndObserveStr("panicked", r.panicked)
 	for _, e := range r.funcErrs {
